@@ -32,7 +32,8 @@ def build(seed):
     rng = subseed(seed, 'universe')
     u = U.generate(rng, profile(rng))
     prng = subseed(seed, 'plan')
-    swarm = {'routes': prng.random() < 0.6, 'batch': prng.random() < 0.3, 'short_reads': False}
+    swarm = {'routes': prng.random() < 0.6, 'batch': prng.random() < 0.3, 'short_reads': False,
+             'external': prng.random() < 0.1}
     plan = [op for op in P.history(prng, u, prng.randint(4, 9), swarm)
             if op['op'] != 'checkpoint']
     if prng.random() < 0.3:
